@@ -642,7 +642,8 @@ class OkStep(object):
 
 class Consumer(OkStep):
     def __call__(self, t):
-        return list(t)
+        self.out = list(t)
+        return self.out
 
     def __repr__(self):
         return 'consume%d' % self.n
@@ -653,7 +654,9 @@ def gen_lazy(draw):
     return {'pre': draw(S_([0, 0, 1, 2, 3])), 'mid': draw(S_([0, 0, 1, 2, 3])), 'post': draw(S_([0, 1])),
             'fail': draw(S_(['path', 'tstep', 'glomerror', 'valueerror'])), 'failat': draw(S_([0, 0, 1])),
             'how': draw(S_(['iter', 'iter', 'map', 'filter'])), 'chain': draw(S_(['tuple', 'tuple', 'pipe'])),
-            'wrap': draw(S_(['none', 'none', 'spec', 'auto', 'coalesce', 'dict', 'nested-chain']))}
+            'wrap': draw(S_(['none', 'none', 'spec', 'auto', 'coalesce', 'dict', 'nested-chain'])),
+            # 'after': every item passes; a step AFTER the consumer fails (the chain must have continued from the consumer)
+            'mode': draw(S_(['lazy', 'lazy', 'after']))}
 
 
 class FailAt(object):
@@ -663,7 +666,7 @@ class FailAt(object):
         self.__name__ = 'failat'
 
     def glomit(self, target, scope):
-        if not target.name.endswith('_' + 'ab'[self.at]):
+        if self.at < 0 or not target.name.endswith('_' + 'ab'[self.at]):
             return target
         if self.kind == 'path':
             return scope[glom.glom](target, 'missing_lazy', scope)
@@ -678,10 +681,13 @@ class FailAt(object):
 
 
 def build_lazy(r):
-    sub = FailAt(r['fail'], r['failat'])
+    after = r.get('mode') == 'after'
+    sub = FailAt(r['fail'], -1 if after else r['failat'])
     it = {'iter': lambda: Iter(sub), 'map': lambda: Iter().map(sub), 'filter': lambda: Iter().filter(sub)}[r['how']]()
     steps = [OkStep(i) for i in range(r['pre'])] + [Probe(77, 'list'), it] + [OkStep(10 + i) for i in range(r['mid'])] + \
         [Consumer(20)] + [OkStep(30 + i) for i in range(r['post'])]
+    if after:
+        steps.append('missing_after' if r['fail'] in ('path', 'glomerror') else T['nope_after'])
     chain = tuple(steps) if r['chain'] == 'tuple' else Pipe(*steps)
     w = r['wrap']
     full = {'none': lambda: chain, 'spec': lambda: Spec(chain), 'auto': lambda: Auto(chain),
@@ -734,6 +740,28 @@ def check_lazy(recipe, ctx):
         return hits[0] if hits else None
     n_it = steps.index(it)
     n_cons = n_it + recipe['mid'] + 1
+    if recipe.get('mode') == 'after':
+        order = [at(chain)] + [at(x) for x in steps]
+        if recipe['wrap'] not in ('none', 'nested-chain'):
+            order.insert(0, at(full))
+        if order != sorted(order):
+            raise Mismatch('lazy-order', '%s: the steps of the chain are not listed in order:\n%s' % (where, show))
+        if at(sub, must=False) is not None:
+            raise Mismatch('stale-spec-line', '%s: the sub-spec of the Iter completed for every item (while the consumer ran) but is '
+                           'listed among the steps of the chain:\n%s' % (where, show))
+        above = [p_[3] for p_ in parsed[:order[-1]] if p_[2] == 'Target']
+        received = fmtval(steps[n_cons].out, 0)       # ([] for filter: the items are falsy)
+        if not above or above[-1] != received:
+            raise Mismatch('innermost-target', '%s: the failing step received %s but the target shown above it is %r:\n%s'
+                           % (where, received, above[-1] if above else None, show))
+        # (+ the second alternative of the Coalesce wrapper / the outer chain and its first step)
+        if len(spec_lines) != len(order) + {'coalesce': 1, 'nested-chain': 2}.get(recipe['wrap'], 0):
+            raise Mismatch('stale-spec-line', '%s: %d Spec lines for %d specs on the failing path:\n%s' % (where, len(spec_lines), len(order), show))
+        ctx.label('fails-after-consumer')
+        ctx.label('lazy-' + recipe['how'])
+        ctx.nontrivial(True)
+        ctx.outcome([ADDR.sub('', repr(full))[:140], type(wrapped).__name__])
+        return
     evaluated = steps[:n_cons + 1]
     never = steps[n_cons + 1:]
     order_a = [at(chain)] + [at(x) for x in steps[:n_it + 1]]
@@ -772,6 +800,6 @@ def check_lazy(recipe, ctx):
 SUBS = [
     Sub('trace', check, gen=gen, quick=3000, thorough=10000,
         floors={'branch-point': 0.1, 'recovered-branch': 0.1, 'depth-3': 0.05, 'linear-exact': 0.1}),
-    Sub('lazy', check_lazy, gen=gen_lazy, quick=800, thorough=3000, floors={'steps-between': 0.2, 'lazy-map': 0.05}),
+    Sub('lazy', check_lazy, gen=gen_lazy, quick=800, thorough=3000, floors={'steps-between': 0.2, 'lazy-map': 0.05, 'fails-after-consumer': 0.15}),
     fuzzrun.fuzz_sub('fuzz-trace', 'hyp:c05:trace', runs=30000, campaigns=4, replay_sub='trace'),
 ]
